@@ -89,6 +89,15 @@ def frame_spec(draw, schema_kind="gt0"):
     c = draw(cells())
     if schema_kind.startswith("ser_"):
         return {"series": c}
+    if draw(st.integers(0, 7)) == 0:
+        # a frame that was validated before (it carries a schema) and was edited in place afterwards: what it
+        # carries says nothing about its current content
+        n = draw(st.integers(1, 4))
+        valid = [draw(st.sampled_from([1, 2, 3])) for _ in range(n)]
+        edit = list(valid)
+        if draw(st.integers(0, 3)) > 0:
+            edit[draw(st.integers(0, n - 1))] = draw(st.sampled_from([-1, 0]))
+        return {"frame": valid, "carry": draw(st.sampled_from(["gt0", "coerce"])), "edit": edit}
     return {"frame": c}
 
 
@@ -123,10 +132,11 @@ def _kind_strategy():
 @st.composite
 def draw_out(draw, allow_multi, frame_params):
     """-> (outs, body-shape, out_form, src, fresh, fresh2)"""
-    getter = draw(st.sampled_from([None, None, 1, "k", "callable", 0]))
+    getter = draw(st.sampled_from([None, None, 1, "k", "callable", 0, -1]))
     if getter is None:
         shape = "frame"
-    elif getter == 1:
+    elif getter in (1, -1):
+        # tuple / list bodies return (scalar, frame): index 1 and index -1 designate the same element
         shape = draw(st.sampled_from(["tuple", "list"]))
     elif getter == "k":
         shape = "dict"
